@@ -22,17 +22,19 @@ class FailingTable(object):
     def __iter__(self):
         if self.fail == 0:
             raise SrcError('header')
-        yield ('v', 'k')
+        yield ('v', 'k', 'w')
         for i in range(self.n):
             if self.fail is not None and self.fail == i + 1:
                 raise SrcError('row %d' % i)
-            yield ('r%d' % i if i != self.bad else (lambda: None), (self.n - i) // 2 if self.ties else self.n - i)
+            name = 'r%d' % i if i != self.bad else (lambda: None)
+            # (the same object in two cells of a row: what a record-by-record pickle stream must keep apart between rows)
+            yield (name, (self.n - i) // 2 if self.ties else self.n - i, name)
 
 
 def expected_rows(n, ties=False, rev=False):
     # the stable sort by the key (ties: equal keys in neighbouring chunks keep their table order, in either direction)
-    rows = [('r%d' % i, (n - i) // 2 if ties else n - i) for i in range(n)]
-    return [('v', 'k')] + sorted(rows, key=lambda r: r[1], reverse=rev)
+    rows = [('r%d' % i, (n - i) // 2 if ties else n - i, 'r%d' % i) for i in range(n)]
+    return [('v', 'k', 'w')] + sorted(rows, key=lambda r: r[1], reverse=rev)
 
 
 def random_history(rng, maxlen=14, maxiters=3):
